@@ -8,7 +8,8 @@ From Proofs Require Import F32Laws DetectUtf8 MdFacts.
 From Gen Require Import Tables.
 From Model Require Import Md Md32.
 From Model Require Import Cd Jaro Jaro32.
-From Proofs Require Import JaroFacts CdScoreFacts CoherenceRefined CoherenceCapstone.
+From Proofs Require Import JaroFacts CdScoreFacts CoherenceRefined CoherenceCapstone PipelineFacts.
+From Model Require Import Pipeline.
 Import ListNotations.
 Open Scope N_scope.
 
@@ -165,3 +166,26 @@ Theorem C04_coherence_in_unit_interval_modelled :
     forall m, In m r -> good F32ops (coherence F32ops m) /\ fle F32ops (coherence F32ops m) (fone F32ops) = true.
 Proof. exact coherence_in_unit_interval_modelled. Qed.
 Print Assumptions C04_coherence_in_unit_interval_modelled.
+
+(* ---- the whole pipeline as one Coq object (Model/Pipeline.v) ----
+   `pipeline B` builds the oracle bundle of the detection model from the MODELS of the heuristics (mess detector,
+   coherence scan, script layers, Jaro score, merge, single-byte languages, declaration matcher) over the primitives
+   B that remain outside: codecs, per-character properties, alphabet_languages.  It is what the end-to-end
+   correspondence (DETECTFULL) runs against the real from_bytes.  For it the chaos and coherence clauses hold with
+   one hypothesis left: a strict decode emits at most one character per byte. *)
+Theorem C04_pipeline_chaos :
+  forall (B : base_oracles) b cfg r,
+    (forall e l t, b_sdecode B e l = Some t -> len t <= len l) ->
+    b <> [] -> len b < 2 ^ 64 -> fisnan F32ops (threshold F32ops cfg) = false ->
+    from_bytes F32ops (pipeline B) b cfg = Ok r ->
+    exists inc exc, shape (chaos_ok F32ops (make_ctx F32ops (pipeline B) b cfg inc exc))
+                          (chaos_fb F32ops (make_ctx F32ops (pipeline B) b cfg inc exc)) r.
+Proof. exact pipeline_chaos. Qed.
+Print Assumptions C04_pipeline_chaos.
+
+Theorem C04_pipeline_coherence :
+  forall (B : base_oracles) b cfg r,
+    b <> [] -> 1 <= steps F32ops cfg -> steps F32ops cfg < 2 ^ 22 -> from_bytes F32ops (pipeline B) b cfg = Ok r ->
+    forall m, In m r -> good F32ops (coherence F32ops m) /\ fle F32ops (coherence F32ops m) (fone F32ops) = true.
+Proof. exact pipeline_coherence. Qed.
+Print Assumptions C04_pipeline_coherence.
